@@ -496,6 +496,30 @@ def run(ctx):
         import itertools
         ords = [list(p) for p in itertools.permutations(ids)][:6]
         jobs.append((0, f"small-{k}", text, off, pop, ords, None))
+    # the Part 21 string grammar: every body item (control directives \\S\\ \\P.\\ \\X\\hh \\X2\\..\\X0\\ \\X4\\.., \\\\, '') alone, at the
+    # start, at the end and next to every other item - in simple instances and in the parts of complex instances
+    grid = G.string_grid()
+    gs = [{"id": k + 1, "parts": [("nd", [("str", b), ("ref", k) if k else ("null",)])]} for k, b in enumerate(grid)]
+    text, off = G.render_file(ctx.rng, s0, gs, lay=False, cmt=False)
+    jobs.append((0, "grid-simple", text, off, gs, [[len(gs)], [1, len(gs) // 2, len(gs)]], None))
+    gc = [{"id": 1, "parts": [("nd", [("str", "n"), ("null",)])]}]
+    for k in range(0, len(grid) - 1, 2):
+        gc.append({"id": k + 2, "parts": [("base", [("int", k)]), ("sa", [("ref", 1), ("str", grid[k])]), ("sb", [("str", grid[k + 1]), ("null",)])]})
+    text, off = G.render_file(ctx.rng, s0, gc, lay=False, cmt=False)
+    ids = [x["id"] for x in gc]
+    jobs.append((0, "grid-complex", text, off, gc, [ids, list(reversed(ids))], None))
+    # long reference chains and wide fan-in: the load-order theorem has no depth bound, so the tie has none either
+    for L in ([200] if quick else [100, 129, 200, 400]):
+        ch = [{"id": i, "parts": [("nd", [("str", f"n{i}"), ("ref", i + 1) if i < L else ("null",)])]} for i in range(1, L + 1)]
+        text, off = G.render_file(ctx.rng, s0, ch, lay=False, cmt=False)
+        jobs.append((0, f"chain-{L}", text, off, ch, [[1], list(range(L, 0, -1)), [L // 2, 1], [L // 2 + 1, 2, 1]], None))
+    W = 150 if quick else 400
+    fan = [{"id": 1, "parts": [("nd", [("str", "hub"), ("null",)])]}]
+    fan += [{"id": i, "parts": [("nd", [("str", "s"), ("ref", 1)])]} for i in range(2, W + 2)]
+    fan.append({"id": W + 2, "parts": [("grp", [("str", "all"), ("agg", list(range(2, W + 2))), ("int", W)])]})
+    text, off = G.render_file(ctx.rng, s0, fan, lay=False, cmt=False)
+    jobs.append((0, f"fan-in-{W}", text, off, fan, [[W + 2], [1, W + 2], [W + 1, W + 2, 1]], None))
+    nfixed = len(jobs)
     for si, s in enumerate(schemas):
         for pi in range(npops):
             n = ctx.rng.randint(0, nmax) if pi % 5 else ctx.rng.randint(0, 4)
@@ -516,7 +540,7 @@ def run(ctx):
     RETRY.on = True
     t0 = time.time()
     results = []
-    nfirst = len(load_corpus()) + len(small)      # corpus and the small graphs first: they also calibrate the time-out
+    nfirst = nfixed      # corpus, the small graphs, the grids first: they also calibrate the time-out
     with cf.ThreadPoolExecutor(max_workers=14) as ex:
         for j, pr in ex.map(work, jobs[:nfirst]):
             results.append((j, pr))
